@@ -156,17 +156,27 @@ def init : M := (({} : M).push cretAddressStartConst).writeTape 0 114
 
 end M
 
+/-- The (index, `peekSize`) pairs of one index buffer: the distance to the next index of the same buffer,
+    0 for its last entry. -/
+def pairsOfBuf (b : Array Nat) : List (Nat × Nat) :=
+  (List.range b.size).map fun k => (b.getD k 0, if k + 1 < b.size then b.getD (k + 1) 0 - b.getD k 0 else 0)
+
+/-- all pairs of a sequence of index buffers, in order -/
+def pairsOf (bufs : Array (Array Nat)) : List (Nat × Nat) := (bufs.toList.map pairsOfBuf).flatten
+
+/-- Run the machine over (index, peek) pairs; `none` = `goto fail`. -/
+def runM (cfg : Cfg) (buf : Bytes) : M → List (Nat × Nat) → Option M
+  | m, [] => some m
+  | m, (idx, peek) :: r =>
+    match m.step cfg buf idx peek with
+    | none => none
+    | some m' => runM cfg buf m' r
+
 /-- Run the machine over the index buffers. -/
-def stage2 (cfg : Cfg) (buf : Bytes) (bufs : Array (Array Nat)) : Option M := Id.run do
-  let mut m := M.init
-  for b in bufs do
-    for h : k in [0:b.size] do
-      let idx := b[k]
-      let peek := if k + 1 < b.size then b[k+1]! - idx else 0
-      match m.step cfg buf idx peek with
-      | none => return none
-      | some m' => m := m'
-  return m.finish
+def stage2 (cfg : Cfg) (buf : Bytes) (bufs : Array (Array Nat)) : Option M :=
+  match runM cfg buf M.init (pairsOf bufs) with
+  | none => none
+  | some m => m.finish
 
 /-- `Parse` / `ParseND` outcome: the exported fields on success. -/
 def parseAny (cfg : Cfg) (nd : Bool) (input : Bytes) : Res PJ :=
